@@ -123,6 +123,94 @@ func c04Gen(r *Rng, i int) dCase {
 	return c
 }
 
+// c04CloseCase: "the tags delivered for one scope never change over its lifetime" - also
+// not when OTHER scopes end theirs. Derivation programs on tagged trees in which sub-scopes
+// (per-request scopes) are closed and dropped by a report pass or by a re-derivation; every
+// metric delivered afterwards - through the parent, siblings, descendants of the closed scope,
+// scopes derived later and the re-derived scope itself - must carry the name and tags its
+// derivation denotes (tags_follow_derivation / name_follows_derivation). Reporter-backed roots
+// only (a test scope is never reported, so nothing is ever dropped). Not sent to the model:
+// Close cycles are C07's.
+func c04CloseCase(r *Rng, i int) dCase {
+	c := dCase{Mode: "deriv", Stream: "close", Shards: pickShards(r), Rep: []string{"plain", "cached"}[i%2]}
+	if r.Chance(25) {
+		c.San = r.Range(1, 2)
+	}
+	san := sanitizerOf(c.San)
+	c.Prefix = B(r.Pick(c04Prefixes))
+	c.Sep = B(r.Pick([]string{"", ".", "_", "::"}))
+	if r.Chance(80) {
+		c.RootTags = c04Map(r, san, 2, []string{"env"})
+	}
+	nScopes := 0
+	type live struct {
+		h    int
+		tags bool
+	}
+	scopes := []live{{0, len(c.RootTags) > 0}}
+	derive := func(op dOp) int {
+		c.Ops = append(c.Ops, op)
+		nScopes++
+		return nScopes
+	}
+	met := func(h int) {
+		c.Ops = append(c.Ops, dOp{Op: "met", H: h, Kind: r.Range(1, 4), Name: B(r.Pick([]string{"m", "hits", "lat", "x.y"}))})
+	}
+	// a small tagged tree
+	for n := r.Range(1, 3); n > 0; n-- {
+		p := scopes[r.Intn(len(scopes))]
+		if r.Chance(55) {
+			m := c04Map(r, san, 2, []string{r.Pick([]string{"zone", "tier", "k1"})})
+			scopes = append(scopes, live{derive(dOp{Op: "tag", H: p.h, Tags: m}), true})
+		} else {
+			scopes = append(scopes, live{derive(dOp{Op: "sub", H: p.h, Name: B(r.Pick([]string{"db", "api", "cache"}))}), p.tags})
+		}
+		if r.Chance(60) {
+			met(scopes[len(scopes)-1].h)
+		}
+	}
+	for round, nr := 0, r.Range(1, 3); round < nr; round++ {
+		// a per-request child of some scope: used, closed
+		p := scopes[r.Intn(len(scopes))]
+		name := B(r.Pick([]string{"req", "job", "conn"}) + string(rune('0'+round)))
+		child := derive(dOp{Op: "sub", H: p.h, Name: name})
+		met(child)
+		var grand int
+		if r.Chance(40) { // a descendant of the child stays in use
+			grand = derive(dOp{Op: "sub", H: child, Name: "inner"})
+			met(grand)
+		}
+		if r.Chance(50) {
+			met(p.h) // the parent's own metrics (timers keep the tag map they were built with)
+		}
+		c.Ops = append(c.Ops, dOp{Op: "close", H: child})
+		switch r.Intn(3) {
+		case 0:
+			c.Ops = append(c.Ops, dOp{Op: "pass"})
+		case 1: // re-derivation of the closed child drops it and builds a new scope
+			met(derive(dOp{Op: "sub", H: p.h, Name: name}))
+		}
+		// afterwards: parent, root, siblings, descendants, later derivations
+		met(p.h)
+		if r.Bool() {
+			met(0)
+		}
+		if grand > 0 && r.Bool() {
+			met(grand)
+		}
+		if r.Chance(60) {
+			m := c04Map(r, san, 2, []string{r.Pick([]string{"shard", "zone"})})
+			met(derive(dOp{Op: "tag", H: p.h, Tags: m}))
+		}
+		if r.Chance(50) {
+			met(derive(dOp{Op: "sub", H: p.h, Name: B(r.Pick([]string{"db", "later"}))}))
+		}
+		q := scopes[r.Intn(len(scopes))]
+		met(q.h)
+	}
+	return c
+}
+
 // c04Collide: one map holds two keys the sanitizer identifies.
 func c04Collide(r *Rng) dCase {
 	c := dCase{Mode: "deriv", Stream: "collide", Shards: pickShards(r), Rep: []string{"plain", "cached"}[r.Intn(2)], San: r.Range(1, 2)}
@@ -228,6 +316,13 @@ func init() {
 		// (schedule-controlled registry scenarios: every delivery is checked against the tags of
 		// the derivation it was recorded through; direct predicate)
 		regCrossStream(ctx, ctx.N(150, 3000), "delivered_name_and_tags_follow_the_derivation")
+		// sub-scopes of tagged trees are closed and dropped; everything else keeps its tags
+		cr := NewRng(ctx.Seed*0x9E3779B97F4A7C15 + 0xC105E)
+		n = ctx.N(200, 6000)
+		for i := 0; i < n; i++ {
+			c := c04CloseCase(cr, i)
+			one(&c)
+		}
 		// different names derived from one prefixed scope by several goroutines at once
 		// (uncontrolled; the verdict is the set of delivered names and the counters' totals)
 		c04NameStorm(ctx, int(ctx.Seed%7)*3, ctx.N(144, 1440), ctx.N(400, 1000))
